@@ -14,6 +14,7 @@
 #include <map>
 #include <set>
 #include <string>
+#include <sys/wait.h>
 #include <unistd.h>
 #include <unordered_set>
 #include <vector>
@@ -239,6 +240,18 @@ struct World
   virtual std::string extra_summary() { return ""; }
 };
 
+// Progress marker read by crash handlers / the supervising driver.
+struct Progress
+{
+  uint64_t index = 0;
+  uint64_t runseed = 0;
+  int phase = 0; // 0 idle 1 primary 2 determinism 3 shrink
+};
+inline Progress g_progress;
+inline std::string g_crash_dir;
+inline World* g_world = nullptr;
+inline Plan g_current_plan;
+
 // ---------------------------------------------------------------- json (tiny)
 inline std::string jesc(const std::string& s)
 {
@@ -426,6 +439,13 @@ inline bool parse_plan_obj(JParse& j, const World& w, Plan& out, std::string& er
   return true;
 }
 
+inline std::string hex64(uint64_t v)
+{
+  char b[24];
+  snprintf(b, sizeof b, "%016" PRIx64, v);
+  return b;
+}
+
 // ---------------------------------------------------------------- execution
 struct Exec
 {
@@ -455,6 +475,94 @@ inline Exec execute(World& w,
   return e;
 }
 
+// Execute one plan in a forked child so that whatever the run does to
+// process-wide state of the code under test (static registries, thread-local
+// records) cannot leak into the next execution.  A child that dies is
+// reported as a violation of class "crash:<signal>".
+inline Exec execute_isolated(World& w,
+                             const Plan& p,
+                             const std::set<std::string>* known,
+                             bool trace = false)
+{
+  int fd[2];
+  if (pipe(fd) != 0) {
+    perror("pipe");
+    exit(2);
+  }
+  fflush(stdout);
+  pid_t pid = fork();
+  if (pid == 0) {
+    close(fd[0]);
+    // crash handlers of the worker must not write crash plans for these children
+    g_crash_dir.clear();
+    Exec e = execute(w, p, known, trace);
+    std::string out;
+    out += "H " + hex64(e.hash) + " " + std::to_string((int)e.nontrivial) + "\n";
+    for (auto& v : e.v)
+      out += "V " + v.prop + "\t" + v.cls + "\t" + std::to_string(v.op_index) + "\t" + v.detail + "\n";
+    for (auto& l : e.lines)
+      out += "L " + l + "\n";
+    size_t off = 0;
+    while (off < out.size()) {
+      ssize_t n = write(fd[1], out.data() + off, out.size() - off);
+      if (n <= 0)
+        break;
+      off += (size_t)n;
+    }
+    close(fd[1]);
+    _exit(0);
+  }
+  close(fd[1]);
+  std::string in;
+  char buf[65536];
+  ssize_t n;
+  while ((n = read(fd[0], buf, sizeof buf)) > 0)
+    in.append(buf, (size_t)n);
+  close(fd[0]);
+  int status = 0;
+  waitpid(pid, &status, 0);
+  Exec e;
+  size_t i = 0;
+  bool got_h = false;
+  while (i < in.size()) {
+    size_t j = in.find('\n', i);
+    if (j == std::string::npos)
+      j = in.size();
+    std::string line = in.substr(i, j - i);
+    i = j + 1;
+    if (line.size() < 2)
+      continue;
+    if (line[0] == 'H') {
+      e.hash = strtoull(line.substr(2, 16).c_str(), nullptr, 16);
+      e.nontrivial = line.size() > 19 && line[19] == '1';
+      got_h = true;
+    } else if (line[0] == 'V') {
+      Violation v;
+      std::string r = line.substr(2);
+      size_t a = r.find('\t'), b = r.find('\t', a + 1), c = r.find('\t', b + 1);
+      if (a != std::string::npos && b != std::string::npos && c != std::string::npos) {
+        v.prop = r.substr(0, a);
+        v.cls = r.substr(a + 1, b - a - 1);
+        v.op_index = atoi(r.substr(b + 1, c - b - 1).c_str());
+        v.detail = r.substr(c + 1);
+        e.v.push_back(v);
+      }
+    } else if (line[0] == 'L') {
+      e.lines.push_back(line.substr(2));
+    }
+  }
+  if (!got_h || !WIFEXITED(status) || WEXITSTATUS(status) != 0) {
+    Violation v;
+    v.prop = "-";
+    int sig = WIFSIGNALED(status) ? WTERMSIG(status) : 0;
+    int code = WIFEXITED(status) ? WEXITSTATUS(status) : 0;
+    v.cls = "crash:" + (sig ? "signal" + std::to_string(sig) : "exit" + std::to_string(code));
+    v.detail = "the process executing this plan died";
+    e.v.push_back(v);
+  }
+  return e;
+}
+
 inline bool has_violation(const Exec& e,
                           const std::string& prop,
                           const std::string& cls)
@@ -472,12 +580,13 @@ inline Plan shrink(World& w,
                    const std::set<std::string>* known,
                    const std::string& prop,
                    const std::string& cls,
-                   unsigned* reruns_out = nullptr)
+                   unsigned* reruns_out = nullptr,
+                   bool isolated = true)
 {
   unsigned reruns = 0;
   auto fails = [&](const Plan& q) {
     reruns++;
-    Exec e = execute(w, q, known);
+    Exec e = isolated ? execute_isolated(w, q, known) : execute(w, q, known);
     return has_violation(e, prop, cls);
   };
   // drop chunks
@@ -547,13 +656,6 @@ inline Plan shrink(World& w,
   if (reruns_out)
     *reruns_out = reruns;
   return p;
-}
-
-inline std::string hex64(uint64_t v)
-{
-  char b[24];
-  snprintf(b, sizeof b, "%016" PRIx64, v);
-  return b;
 }
 
 inline bool write_replay(const std::string& path,
@@ -663,18 +765,6 @@ inline std::string stats_json(const Stats& st)
          ",\"sim_ns\":" + std::to_string(st.sim_ns);
 }
 
-// Progress marker read by crash handlers / the supervising driver.
-struct Progress
-{
-  uint64_t index = 0;
-  uint64_t runseed = 0;
-  int phase = 0; // 0 idle 1 primary 2 determinism 3 shrink
-};
-inline Progress g_progress;
-inline std::string g_crash_dir;
-inline World* g_world = nullptr;
-inline Plan g_current_plan;
-
 // ---------------------------------------------------------------- main
 inline int sim_main(World& w, int argc, char** argv)
 {
@@ -683,7 +773,8 @@ inline int sim_main(World& w, int argc, char** argv)
   uint64_t seed = 1, start = 0, count = 100, enum_start = 0, enum_count = 0;
   double time_limit = 1e9;
   bool thorough = false, trace = false, regress = false;
-  unsigned det_every = 16, max_cand = 4;
+  unsigned det_every = 16;
+  uint64_t regress_start = 0;
   for (int i = 1; i < argc; i++) {
     std::string a = argv[i];
     auto nxt = [&]() -> std::string { return (i + 1 < argc) ? argv[++i] : ""; };
@@ -716,7 +807,12 @@ inline int sim_main(World& w, int argc, char** argv)
       trace = true;
     else if (a == "--regress")
       regress = true;
-    else if (a == "--det-every")
+    else if (a == "--regress-start")
+      regress_start = strtoull(nxt().c_str(), nullptr, 10);
+    else if (a == "--shrink") {
+      mode = "shrink";
+      replay_path = nxt();
+    } else if (a == "--det-every")
       det_every = (unsigned)atoi(nxt().c_str());
     else if (a == "--enum-size") {
       printf("%" PRIu64 "\n", w.enum_count(thorough));
@@ -780,6 +876,62 @@ inline int sim_main(World& w, int argc, char** argv)
     return 0;
   }
 
+  if (mode == "shrink") {
+    // Runs in a fresh process; every execution happens in a forked child.
+    Replay r;
+    std::string err;
+    if (!read_replay(replay_path, w, r, err)) {
+      fprintf(stderr, "shrink: %s\n", err.c_str());
+      return 2;
+    }
+    std::string prop = r.prop, cls = r.cls;
+    Exec e1 = execute_isolated(w, r.plan, &known);
+    if (cls == "crash") {
+      // a worker died on this plan: adopt the crash class observed in isolation
+      cls.clear();
+      for (auto& v : e1.v)
+        if (v.cls.rfind("crash:", 0) == 0)
+          cls = v.cls;
+      if (cls.empty()) {
+        printf("NOT-REPRODUCED file=%s reason=no-crash-in-isolation\n", replay_path.c_str());
+        return 0;
+      }
+      prop = "-";
+    }
+    Exec e2 = execute_isolated(w, r.plan, &known);
+    if (!has_violation(e1, prop, cls) || !has_violation(e2, prop, cls)) {
+      printf("NOT-REPRODUCED file=%s property=%s class=%s\n", replay_path.c_str(), prop.c_str(), cls.c_str());
+      return 0;
+    }
+    if (e1.hash != e2.hash && cls.rfind("crash:", 0) != 0) {
+      printf("NOT-DETERMINISTIC file=%s h1=%s h2=%s\n", replay_path.c_str(), hex64(e1.hash).c_str(), hex64(e2.hash).c_str());
+      return 0;
+    }
+    unsigned reruns = 0;
+    Plan m = shrink(w, r.plan, &known, prop, cls, &reruns, true);
+    Exec fin = execute_isolated(w, m, &known, true);
+    std::string detail;
+    for (auto& fv : fin.v)
+      if (fv.prop == prop && fv.cls == cls)
+        detail = fv.detail;
+    std::string outp = replay_path;
+    size_t rawpos = outp.find("raw-");
+    if (rawpos != std::string::npos)
+      outp.replace(rawpos, 4, "min-");
+    else
+      outp += ".min.json";
+    write_replay(outp, w, m, r.prop == "-" || r.cls == "crash" ? r.prop : prop, cls, detail, 0, fin.hash, SIM_BUILD_NAME, fin.lines);
+    printf("CANDIDATE property=%s class=%s replay=%s ops=%zu from=%zu reruns=%u detail=%s\n",
+           prop.c_str(),
+           cls.c_str(),
+           outp.c_str(),
+           m.ops.size(),
+           r.plan.ops.size(),
+           reruns,
+           detail.c_str());
+    return 0;
+  }
+
   if (mode == "gen") {
     uint64_t rs = mix2(seed, start);
     Rng r(rs);
@@ -794,16 +946,18 @@ inline int sim_main(World& w, int argc, char** argv)
   uint64_t evaluations = 0, det_checked = 0, nontrivial_runs = 0;
   std::unordered_set<uint64_t> distinct;
   std::vector<std::string> samples;
-  unsigned candidates = 0;
-  std::set<std::string> seen_classes;
   int rc = 0;
 
-  auto handle = [&](const Plan& p, uint64_t idx, uint64_t rs, bool is_enum) {
+  bool stopped = false;
+  uint64_t stopped_idx = 0;
+  std::string stopped_kind;
+  uint64_t violating_runs = 0;
+  auto handle = [&](const Plan& p, uint64_t idx, uint64_t rs, const char* kind) {
     g_progress.index = idx;
     g_progress.runseed = rs;
     g_progress.phase = 1;
     g_current_plan = p;
-    printf("BEGIN %s %" PRIu64 " %" PRIu64 "\n", is_enum ? "enum" : "rand", idx, rs);
+    printf("BEGIN %s %" PRIu64 " %" PRIu64 "\n", kind, idx, rs);
     fflush(stdout);
     Exec e = execute(w, p, &known);
     evaluations++;
@@ -814,8 +968,32 @@ inline int sim_main(World& w, int argc, char** argv)
     }
     if (samples.size() < 3 && e.nontrivial && (evaluations % 7 == 1 || samples.empty()))
       samples.push_back(plan_json(w, p));
-    bool do_det = det_every && (evaluations % det_every == 0);
-    if (do_det || !e.v.empty()) {
+    if (!e.v.empty()) {
+      // Any deviation may have left process-wide state of the code under test
+      // (static registries, thread-local records) inconsistent: this process
+      // executes nothing further.  Gate, shrinking and the remaining runs
+      // happen in fresh processes started by the driver.
+      violating_runs++;
+      const Violation* pick = nullptr;
+      for (auto& v : e.v)
+        if (props.empty() || props.count(v.prop)) {
+          pick = &v;
+          break;
+        }
+      if (pick) {
+        std::string path = outdir + "/raw-" + w.name() + "-" + std::to_string(rs) + "-" + kind + std::to_string(idx) + ".json";
+        write_replay(path, w, p, pick->prop, pick->cls, pick->detail, rs, e.hash, SIM_BUILD_NAME, {});
+        printf("RAWCANDIDATE property=%s class=%s file=%s detail=%s\n", pick->prop.c_str(), pick->cls.c_str(), path.c_str(), pick->detail.c_str());
+      } else {
+        total.probes["other_property_deviation:" + e.v[0].prop]++;
+      }
+      stopped = true;
+      stopped_idx = idx;
+      stopped_kind = kind;
+      g_progress.phase = 0;
+      return;
+    }
+    if (det_every && (evaluations % det_every == 0)) {
       g_progress.phase = 2;
       Exec e2 = execute(w, p, &known);
       det_checked++;
@@ -832,58 +1010,27 @@ inline int sim_main(World& w, int argc, char** argv)
         return;
       }
     }
-    for (auto& v : e.v) {
-      if (!props.empty() && !props.count(v.prop)) {
-        total.probes["other_property_deviation:" + v.prop]++;
-        continue;
-      }
-      std::string key = v.prop + ":" + v.cls;
-      if (seen_classes.count(key) || candidates >= max_cand)
-        continue;
-      seen_classes.insert(key);
-      g_progress.phase = 3;
-      unsigned reruns = 0;
-      Plan m = shrink(w, p, &known, v.prop, v.cls, &reruns);
-      Exec fin = execute(w, m, &known, true);
-      std::string detail = v.detail;
-      for (auto& fv : fin.v)
-        if (fv.prop == v.prop && fv.cls == v.cls)
-          detail = fv.detail;
-      std::string path =
-        outdir + "/" + v.prop + "-" + w.name() + "-" + std::to_string(rs) + ".json";
-      write_replay(path, w, m, v.prop, v.cls, detail, rs, fin.hash, SIM_BUILD_NAME, fin.lines);
-      printf("CANDIDATE property=%s class=%s replay=%s ops=%zu from=%zu reruns=%u detail=%s\n",
-             v.prop.c_str(),
-             v.cls.c_str(),
-             path.c_str(),
-             m.ops.size(),
-             p.ops.size(),
-             reruns,
-             detail.c_str());
-      fflush(stdout);
-      candidates++;
-    }
     g_progress.phase = 0;
   };
 
   if (regress) {
     auto rp = w.regression_plans();
-    for (size_t i = 0; i < rp.size() && rc == 0; i++)
-      handle(rp[i], i, 0, true);
+    for (size_t i = regress_start; i < rp.size() && rc == 0 && !stopped; i++)
+      handle(rp[i], i, 0, "regr");
   }
-  for (uint64_t i = 0; i < enum_count && rc == 0; i++) {
+  for (uint64_t i = 0; i < enum_count && rc == 0 && !stopped; i++) {
     if (now_s() - t0 > time_limit)
       break;
-    handle(w.enum_plan(enum_start + i, thorough), enum_start + i, 0, true);
+    handle(w.enum_plan(enum_start + i, thorough), enum_start + i, 0, "enum");
   }
   uint64_t done_rand = 0;
-  for (uint64_t i = 0; i < count && rc == 0; i++) {
+  for (uint64_t i = 0; i < count && rc == 0 && !stopped; i++) {
     if (now_s() - t0 > time_limit)
       break;
     uint64_t rs = mix2(seed, start + i);
     Rng r(rs);
     Plan p = w.generate(r, thorough);
-    handle(p, start + i, rs, false);
+    handle(p, start + i, rs, "rand");
     done_rand++;
   }
   if (!hashfile.empty()) {
@@ -901,7 +1048,8 @@ inline int sim_main(World& w, int argc, char** argv)
   std::string extra = w.extra_summary();
   printf("SUMMARY {\"world\":\"%s\",\"build\":\"%s\",\"evaluations\":%" PRIu64
          ",\"random_runs\":%" PRIu64 ",\"nontrivial_runs\":%" PRIu64 ",\"distinct\":%zu,"
-         "\"det_checked\":%" PRIu64 ",\"candidates\":%u,\"wall_s\":%.3f,%s,\"samples\":%s%s%s}\n",
+         "\"det_checked\":%" PRIu64 ",\"violating_runs\":%" PRIu64 ",\"stopped\":%d,\"stopped_kind\":\"%s\",\"stopped_idx\":%" PRIu64
+         ",\"wall_s\":%.3f,%s,\"samples\":%s%s%s}\n",
          w.name(),
          SIM_BUILD_NAME,
          evaluations,
@@ -909,7 +1057,10 @@ inline int sim_main(World& w, int argc, char** argv)
          nontrivial_runs,
          distinct.size(),
          det_checked,
-         candidates,
+         violating_runs,
+         (int)stopped,
+         stopped_kind.c_str(),
+         stopped_idx,
          now_s() - t0,
          stats_json(total).c_str(),
          sj.c_str(),
